@@ -56,6 +56,7 @@ func selfSigned() tls.Certificate {
 type script struct {
 	alpn    []string // protocols the server supports (nil: no ALPN extension in its reply)
 	chunks  [][]byte // one conn.Write (= one TLS record = one client Read) each
+	holdMs  int      // keep the connection open and silent this long after the last write
 	abrupt  bool     // close the TCP connection without close_notify
 	dropPre bool     // close right after accept, before the handshake
 }
@@ -137,6 +138,9 @@ func (p *peer) handle(conn net.Conn, sc *script) {
 			}
 		}
 	}
+	if sc.holdMs > 0 {
+		time.Sleep(time.Duration(sc.holdMs) * time.Millisecond)
+	}
 	if sc.abrupt {
 		conn.Close()
 	} else {
@@ -154,6 +158,9 @@ type peerCtl struct {
 }
 
 var cur peerCtl
+
+// LastFetchElapsed: wall time of the last FetchData call (observation only, never part of an answer).
+var LastFetchElapsed time.Duration
 
 var (
 	thePeer  *peer
@@ -229,7 +236,7 @@ func fetchErrClass(err error) string {
 		return "dial"
 	}
 	c := readErrClass(err)
-	if c == "eof" || c == "unexpected-eof" || (strings.HasPrefix(c, "other:read_tcp") && strings.Contains(c, "connection_reset")) ||
+	if c == "eof" || c == "unexpected-eof" || strings.Contains(s, "i/o timeout") || (strings.HasPrefix(c, "other:read_tcp") && strings.Contains(c, "connection_reset")) ||
 		(quicMode && isQUICIOErr(s)) {
 		return "read-io"
 	}
@@ -256,6 +263,13 @@ func fFetch(t []string) string {
 	if v, ok := kv(t, "drop"); ok {
 		sc.dropPre = v == "pre"
 	}
+	ctxMs := 10000
+	if v, ok := kv(t, "hold"); ok {
+		sc.holdMs = atoi(v)
+	}
+	if v, ok := kv(t, "ctxms"); ok {
+		ctxMs = atoi(v)
+	}
 	// the TLS-level inputs of the model are derived from the script; check them
 	wantDial, wantProto := expectTLS(sc.alpn)
 	if sc.dropPre {
@@ -275,8 +289,10 @@ func fFetch(t []string) string {
 	p := cur
 	p.setNext(sc)
 	before := p.accepts()
-	ctx, cancel := context.WithTimeout(context.Background(), 10*time.Second)
+	ctx, cancel := context.WithTimeout(context.Background(), time.Duration(ctxMs)*time.Millisecond)
+	t0 := time.Now()
 	data, err := fetcher.FetchData(ctx)
+	LastFetchElapsed = time.Since(t0)
 	cancel()
 	exch := false
 	// a connection attempt that reached the listener is accepted at the latest now
